@@ -126,3 +126,23 @@ Definition has_unwinder (c : cpu_kind) : bool :=
   match c with CpuPpc | CpuPpc64 | CpuSparc | CpuUnknown => false | _ => true end.
 Definition get_caller_dispatch {F} (c : cpu_kind) (arch_walker : F -> option F) : F -> option F :=
   if has_unwinder c then arch_walker else fun _ => None.
+
+(* ------------------------------------------------------------------ reading a u64 out of the memory list *)
+(* InstructionPointerUpdate::from_instruction (op_analysis.rs 635-646), jmp/call through memory:
+   memory_list.memory_at_address(a).and_then(|mem| mem.get_memory_at_address::<u64>(a));
+   get_memory_at_address (minidump.rs 2072): addr.checked_sub(base)? as usize, then scroll pread_with::<u64>, which
+   fails unless 8 bytes are left in THIS region's slice.  Little endian. *)
+Fixpoint le_value (l : list Z) : Z := match l with [] => 0 | b :: t => b + 256 * le_value t end.
+Definition region_read_u64 (m : region) (addr : Z) : option Z :=
+  match checked_sub addr (r_base m) with
+  | None => None
+  | Some start =>
+      if start + 8 <=? Z.of_nat (length (r_bytes m))
+      then Some (le_value (firstn 8 (skipn (Z.to_nat start) (r_bytes m))))
+      else None
+  end.
+Definition read_u64_at (rs : list region) (addr : Z) : option Z :=
+  match memory_at rs addr with
+  | None => None
+  | Some m => region_read_u64 m addr
+  end.
